@@ -74,9 +74,35 @@ type ErrBudget struct{ N int }
 
 func (e *ErrBudget) Error() string { return fmt.Sprintf("regexp model: more than %d match paths", e.N) }
 
+// reqNode is a persistent list of requirements (sharing prefixes between paths keeps long inputs linear).
+type reqNode struct {
+	r    Req
+	prev *reqNode
+	n    int
+}
+
+func (l *reqNode) push(r Req) *reqNode {
+	n := 1
+	if l != nil {
+		n = l.n + 1
+	}
+	return &reqNode{r: r, prev: l, n: n}
+}
+
+func (l *reqNode) slice() []Req {
+	if l == nil {
+		return nil
+	}
+	out := make([]Req, l.n)
+	for x := l; x != nil; x = x.prev {
+		out[x.n-1] = x.r
+	}
+	return out
+}
+
 type st struct {
 	caps []int
-	reqs []Req
+	reqs *reqNode
 }
 
 type enum struct {
@@ -140,7 +166,7 @@ func (e *enum) consume(set ByteSet, pos int, s st, k func(int, st)) {
 			return
 		}
 	}
-	ns := st{caps: s.caps, reqs: append(append([]Req(nil), s.reqs...), Req{pos, set})}
+	ns := st{caps: s.caps, reqs: s.reqs.push(Req{pos, set})}
 	k(pos+1, ns)
 }
 
@@ -152,7 +178,7 @@ func (e *enum) look(set ByteSet, pos int, s st, k func(st)) {
 	if set.Empty() {
 		return
 	}
-	k(st{caps: s.caps, reqs: append(append([]Req(nil), s.reqs...), Req{pos, set})})
+	k(st{caps: s.caps, reqs: s.reqs.push(Req{pos, set})})
 }
 
 // normalise sorts the requirements by position and intersects those on the same byte; ok=false when contradictory.
@@ -350,7 +376,7 @@ func (m *Model) PathsAllowed(n, budget int, allowed []ByteSet) ([]Path, error) {
 			}
 			c := append([]int(nil), s.caps...)
 			c[0], c[1] = s0, p
-			reqs, ok := normalise(s.reqs)
+			reqs, ok := normalise(s.reqs.slice())
 			if !ok {
 				return
 			}
